@@ -131,7 +131,7 @@ def match_known(known, unit, label, inputs, detail):
         where = e.get("where")
         if where:
             env = dict(v={k: (float(x) if isinstance(x, Fraction) else x) for k, x in (inputs or {}).get("values", {}).items()},
-                       ch=(inputs or {}).get("choices", {}), detail=detail or "", label=label)
+                       ch=(inputs or {}).get("choices", {}), detail=detail or "", label=label, e=e)
             try:
                 if not eval(where, {"__builtins__": {"abs": abs, "min": min, "max": max, "len": len, "any": any, "all": all, "sorted": sorted}}, env):
                     continue
@@ -320,9 +320,9 @@ class PropertyRun:
                 clabel = ctx2.failures[0]["label"]
             k = match_known(known, unit.name, clabel, v2["inputs"], det2) or match_known(known, unit.name, label, v2["inputs"], det2)
             if k is not None:
-                if k["id"] not in seen_known:
-                    seen_known.add(k["id"])
-                    self.known_lines.append(f"KNOWN-FINDING: property={self.pid} {k['id']}: {k['summary']}")
+                line = f"KNOWN-FINDING: property={self.pid} {k['id']}: {k['summary']}"
+                if line not in self.known_lines:
+                    self.known_lines.append(line)
                 continue
             if not reported:
                 p = self._replay_path(unit, clabel, v2["inputs"])
